@@ -168,13 +168,130 @@ func genBrr(r *Rand, tier string, emit func(string)) {
 			emit("brr in=" + kv["in"])
 		}
 	})
+	// literals, window copies and dictionary words cut by the full window (re-entry of readCommands
+	// through every stepState), and the same cuts one position earlier / later
+	ncut := 40
+	if thorough {
+		ncut = 600
+	}
+	for i := 0; i < ncut; i++ {
+		k := pick.Intn(30)
+		pre := 1008 - k
+		switch i % 3 {
+		case 0: // static dictionary word
+			L := 4 + pick.Intn(21)
+			emit("brr in=" + hx(cutStream(pick, pre, pick.Intn(3), L, pick.Intn(1<<brNDBits[L]), pick.Pick([]int{0, 1, 2, 5, 10, 13, 29, 44, 62, 73, 83}), 0, 0)))
+		case 1: // copy from the window
+			emit("brr in=" + hx(cutStream(pick, pre, pick.Intn(3), 0, 0, 0, 1+pick.Intn(pre), 2+pick.Intn(60))))
+		default: // literals
+			emit("brr in=" + hx(cutStream(pick, pre, 1+pick.Intn(60), 0, 0, 0, 1+pick.Intn(pre), 2+pick.Intn(8))))
+		}
+	}
 }
 
 func init() {
 	register(&Family{
 		Name: "brr",
-		Rule: "the inputs of family brd (every string of <= 1 byte, a stride of the 2-byte strings, and a random sixth (quick) or twelfth (thorough) of: libbrotlienc output at qualities 0-11, one-command static-dictionary/transform streams, streams of the independent synthesiser incl. uncompressed and metadata meta-blocks, complex prefix codes item by item, bit flips / overwrites / truncations / extensions), those that deliver at most 30000 bytes. Each is read from a bytes.Reader through brotli.Reader with the Read schedules {4096}, {1}, {0,0,1,0,7}, {100000} and one random schedule; recorded per Read call: bytes returned, InputOffset, OutputOffset; then the output and the final error class. The same line goes through the Go-shaped Lean model (Brotli/Impl.lean) and must print the same. Oracles on the implementation: same bytes and class under every schedule (C10), class in {eof, ueof, corrupt} (C09), OutputOffset = bytes delivered (C11). Non-trivial = delivered output or accepted",
+		Rule: "the inputs of family brd (every string of <= 1 byte, a stride of the 2-byte strings, and a random sixth (quick) or twelfth (thorough) of: libbrotlienc output at qualities 0-11, one-command static-dictionary/transform streams, streams of the independent synthesiser incl. uncompressed and metadata meta-blocks, complex prefix codes item by item, bit flips / overwrites / truncations / extensions), those that deliver at most 30000 bytes; plus streams with WBITS = 10 in which the literals, the window copy or the transformed static-dictionary word of a command is cut by the full window (1008 bytes) at a random position, so that readCommands suspends in each of its three sub-states and is re-entered. Each is read from a bytes.Reader through brotli.Reader with the Read schedules {4096}, {1}, {0,0,1,0,7}, {100000} and one random schedule; recorded per Read call: bytes returned, InputOffset, OutputOffset; then the output and the final error class. The same line goes through the Go-shaped Lean model (Brotli/Impl.lean) and must print the same. Oracles on the implementation: same bytes and class under every schedule (C10), class in {eof, ueof, corrupt} (C09), OutputOffset = bytes delivered (C11). Non-trivial = delivered output or accepted",
 		Gen:  genBrr,
 		Exec: execBrr,
 	})
+}
+
+// cutStream: WBITS = 10 (window 1008 bytes = the first size of the lazily grown buffer), an
+// uncompressed meta-block of `pre` bytes, then a last compressed meta-block with `lits` literals and one
+// copy: from the static dictionary (word length L, index idx, transform t) or, if L == 0, `cl` bytes from
+// distance `dist` back. With pre near 1008 the literals / the copy / the word is cut by the full window:
+// readCommands suspends in stateLiterals / stateDynamicDict / stateStaticDict and is re-entered.
+func cutStream(r *Rand, pre, lits, L, idx, t, dist, cl int) []byte {
+	w := &bitW{}
+	w.bit(1)
+	w.bits(0, 3)
+	w.bits(2, 3) // WBITS = 10
+	// uncompressed meta-block
+	w.bit(0)     // ISLAST
+	w.bits(0, 2) // MNIBBLES = 4
+	w.bits(uint64(pre-1), 16)
+	w.bit(1) // ISUNCOMPRESSED
+	w.align()
+	for i := 0; i < pre; i++ {
+		w.bits(uint64('a'+i%23), 8)
+	}
+	// compressed meta-block
+	var word []byte
+	if L > 0 {
+		word = brotli.VerifTransformWord(brDictWord(L, idx), t)
+		cl = L
+	}
+	produced := len(word)
+	if L == 0 {
+		produced = cl
+	}
+	mlen := lits + produced
+	if mlen == 0 {
+		mlen = 1
+	}
+	w.bit(1) // ISLAST
+	w.bit(0)
+	w.bits(0, 2)
+	w.bits(uint64(mlen-1), 16)
+	w.bit(0)
+	w.bit(0)
+	w.bit(0)
+	w.bits(0, 2) // NPOSTFIX
+	w.bits(0, 4) // NDIRECT
+	w.bits(0, 2)
+	w.bit(0)
+	w.bit(0)
+	writeSimple(w, r, 256, []int{'x'})
+	// insert code for `lits`, copy code for `cl`
+	ic, iex, cc, cex := 0, 0, 0, 0
+	for c := 0; c < 24; c++ {
+		if brInsBase[c] <= lits && lits < brInsBase[c]+(1<<brInsExtra[c]) {
+			ic, iex = c, lits-brInsBase[c]
+		}
+		if brCopyBase[c] <= cl && cl < brCopyBase[c]+(1<<brCopyExtra[c]) {
+			cc, cex = c, cl-brCopyBase[c]
+		}
+	}
+	cell := -1
+	for i, cdef := range brCells {
+		if cdef[2] == 0 && cdef[0] == ic&^7 && cdef[1] == cc&^7 {
+			cell = i
+		}
+	}
+	cmd := cell<<6 | (ic&7)<<3 | cc&7
+	pc := writeSimple(w, r, 704, []int{cmd})
+	hist := min(pre+lits, 1008)
+	d := dist
+	if L > 0 {
+		d = hist + 1 + idx + t<<brNDBits[L]
+	}
+	dsym, dex, nbits := 0, 0, uint(0)
+	for nb := uint(1); nb <= 24; nb++ {
+		for h := 0; h < 2; h++ {
+			off := ((2 + h) << nb) - 4
+			if off <= d-1 && d-1 < off+(1<<nb) {
+				dsym, dex, nbits = 16+2*int(nb-1)+h, d-1-off, nb
+			}
+		}
+	}
+	pd := writeSimple(w, r, 64, []int{dsym})
+	pc.put(w, cmd)
+	w.bits(uint64(iex), brInsExtra[ic])
+	w.bits(uint64(cex), brCopyExtra[cc])
+	pd.put(w, dsym)
+	w.bits(uint64(dex), nbits)
+	w.align()
+	return w.buf
+}
+
+// brDictWord returns word `idx` of length L of the static dictionary.
+func brDictWord(L, idx int) []byte {
+	dict := brotli.VerifStaticDict()
+	off := 0
+	for l := 4; l < L; l++ {
+		off += l << brNDBits[l]
+	}
+	return dict[off+idx*L : off+(idx+1)*L]
 }
